@@ -180,7 +180,7 @@ static void run_case(const std::string &line) {
     if (n->CANSendFrameBuf) snprintf(b, 256, "| open=%d q=%u/%u/%u", (int)n->OpenState, (unsigned)n->MaxCANSendFrames, (unsigned)n->CANSendFrameBufferRead, (unsigned)n->CANSendFrameBufferWrite);
     else snprintf(b, 256, "| open=%d q=-", (int)n->OpenState);
     out += b;
-    snprintf(b, 256, " ac=%d dic=%d", (int)n->AddressChanged, (int)n->DeviceInformationChanged); out += b;
+    snprintf(b, 256, " ac=%d dic=%d idc=%d", (int)n->AddressChanged, (int)n->DeviceInformationChanged, (int)n->InstallationDescriptionChanged); out += b;
     for (int i = 0; i < ndev && n->Devices; i++) {
       tNMEA2000::tInternalDevice &d = n->Devices[i];
       snprintf(b, 256, " dev%d{src=%u end=%u name=%llx claim=%s tp=%lu dt=%u pc=%s pp=%s pf=%s hb=", i, (unsigned)d.N2kSource, (unsigned)d.AddressClaimEndSource,
